@@ -35,6 +35,10 @@ BODIES = {
     "bigint": ("def cx(a, b):\n    return a ** b + 1\n", [(3, 40), (2, 60), (7, 1), (10, 18)]),
     "negfloat": ("def cx(a, b):\n    return -a / 3 + b * 1e-7\n", [(1, 1), (10, 0), (0, 5), (7, -2)]),
     "unicode": ("def cx(nm, n):\n    return HASH('Tür ' + nm * n) % 1000\n", [("é", 1), ("Lampe", 2), ("", 3), ("€", 4)]),
+    # an expression evaluated when the 'def' runs (a default value) that uses a constexpr function defined earlier in the module, and one
+    # that uses an earlier constexpr function named like a Python builtin: the helper script must define the functions in source order
+    "defarg": ("def head(k):\n    return k * 256\n@constexpr\ndef cx(a, b=head(3)):\n    return a + b\n", [(5,), (5, 1), (0,), (2, 2)]),
+    "shadow": ("def ord(ch):\n    return 7\n@constexpr\ndef cx(a, b=ord('A')):\n    return a * 256 + b\n", [(5,), (5, 1), (0,), (2, 2)]),
     "list": ("def cx(a, b):\n    return [a, b, a + b, a * b]\n", [(2, 3), (0, 1), (5, 5), (-1, 4)]),
 }
 
